@@ -2,7 +2,10 @@
 """Regenerates MANIFEST.json from checks.json (single source of truth for the per-property metadata)."""
 import json, os
 V = os.path.dirname(os.path.abspath(__file__))
-cfg = json.load(open(os.path.join(V, "checks.json")))
+import importlib.machinery, importlib.util
+_l = importlib.machinery.SourceFileLoader("check", os.path.join(V, "check"))
+_s = importlib.util.spec_from_loader("check", _l); _m = importlib.util.module_from_spec(_s); _l.exec_module(_m)
+cfg = _m.load_cfg()
 props = [json.loads(l) for l in open(os.path.join(V, "properties.jsonl")) if l.strip()]
 checks, na = [], []
 for p in props:
